@@ -104,7 +104,7 @@ func checkC08(c *Ctx) {
 		})
 	}
 	c.importRules(configIntactRules, []string{"R3.7"}, "R8.10") // axis mappings (notes, offsets) are read from an unmodified copy of the parsed configuration
-	c.importRules(repetitionRules, []string{"R6.17"}, "R8.11")  // the first report of an axis is not dropped as a repetition of a position it never reported
+	c.importRules(repetitionRules, []string{"R6.17", "R6.4"}, "R8.11")  // the first report of an axis is not dropped as a repetition of a position it never reported
 	c.MinCount("R8.1", 5)
 	c.MinCount("R8.4", 1)
 	c.MinCount("R8.5", 3)
@@ -773,9 +773,28 @@ func checkC07(c *Ctx) {
 		name := dv.refName(dv.ownerOf(s.Fn))
 		key := "write(Device.ccZeroed)@" + shortFn(s.Fn)
 		ws = append(ws, name)
-		if sameAnchorName(name, "handleABSEvent") || sameAnchorName(name, "NewDevice") {
+		switch {
+		case sameAnchorName(name, "handleABSEvent"):
 			c.OK("R7.5", key, c.P.Pos(s.Instr.Pos()), "allowed writer")
-		} else {
+		case sameAnchorName(name, "NewDevice"):
+			// the constructor creates the table; a flag it sets claims a 0 that this device object never sent (the receiver
+			// keeps its controller values across a re-created device: reload, re-plug)
+			if st, isStore := s.Instr.(*ssa.Store); isStore && s.What == "field assignment" {
+				if mk, fresh := st.Val.(*ssa.MakeMap); fresh && mk.Referrers() != nil {
+					filled := false
+					for _, r := range *mk.Referrers() {
+						if _, isDbg := r.(*ssa.DebugRef); !isDbg && r != s.Instr {
+							filled = true
+						}
+					}
+					if !filled {
+						c.OK("R7.5", key, c.P.Pos(s.Instr.Pos()), "creates the empty table")
+						break
+					}
+				}
+			}
+			c.Bad("R7.5", key, c.P.Pos(s.Instr.Pos()), "the constructor sets a zero flag: it claims a 0 this device never sent, the first crossing of the centre would not zero the side left (the receiver keeps its controller values when a device is re-created)")
+		default:
 			c.Bad("R7.5", key, c.P.Pos(s.Instr.Pos()), "the zero flags are written outside the axis handler")
 		}
 	}
